@@ -261,12 +261,17 @@ fn emit(cases: &[(usize, &MCase)], per_file: usize) -> Emitted {
 }
 
 fn write_crate(dir: &Path, name: &str, repo: &Path, em: &Emitted) -> Result<(), String> {
+    write_crate_with(dir, name, repo, em, "\"macros\"")
+}
+
+/// `feats`: the cargo features of both facade crates, as the inside of a TOML array
+fn write_crate_with(dir: &Path, name: &str, repo: &Path, em: &Emitted, feats: &str) -> Result<(), String> {
     let src = dir.join("src");
     let _ = std::fs::remove_dir_all(&src);
     std::fs::create_dir_all(&src).map_err(|e| e.to_string())?;
     std::fs::create_dir_all(dir.join(".cargo")).map_err(|e| e.to_string())?;
     let toml = format!(
-        "[package]\nname = \"{name}\"\nversion = \"0.0.0\"\nedition = \"2021\"\npublish = false\n\n[workspace]\n\n[dependencies]\nunic-langid = {{ path = \"{r}/unic-langid\", features = [\"macros\"] }}\nunic-locale = {{ path = \"{r}/unic-locale\", features = [\"macros\"] }}\n\n[profile.dev]\ndebug = 0\nincremental = false\n",
+        "[package]\nname = \"{name}\"\nversion = \"0.0.0\"\nedition = \"2021\"\npublish = false\n\n[workspace]\n\n[dependencies]\nunic-langid = {{ path = \"{r}/unic-langid\", features = [{feats}] }}\nunic-locale = {{ path = \"{r}/unic-locale\", features = [{feats}] }}\n\n[profile.dev]\ndebug = 0\nincremental = false\n",
         r = repo.display()
     );
     std::fs::write(dir.join("Cargo.toml"), toml).map_err(|e| e.to_string())?;
@@ -433,6 +438,40 @@ pub fn evaluate(cfg: &Cfg, tag: &str, cases: &[MCase]) -> Result<Vec<Option<Outc
                     return Err(format!("the ok-crate printed no result for invocation {i} (exit {:?})", run.status.code()));
                 }
             }
+            // the same program once more with likelysubtags switched on next to macros: the proc-macro
+            // crates are host dependencies and (resolver 2) get their own feature set, so a
+            // feature-gated difference in the parser separates the macro's answer from the run-time one
+            let dir2 = base.join(format!("{tag}-okl"));
+            let em = emit(&live, 250);
+            write_crate_with(&dir2, "c16okl", &cfg.repo, &em, "\"macros\", \"likelysubtags\"")?;
+            let co = cargo(&dir2, &target, "build")?;
+            if !co.success {
+                for (f, line, msg) in &co.errors {
+                    if let Some(i) = case_at(&em.lines, f, *line) {
+                        if matches!(out[i], Some(Outcome::Equal)) {
+                            out[i] = Some(Outcome::CompileError(format!("[features macros + likelysubtags] {msg}")));
+                        }
+                    }
+                }
+                if co.errors.is_empty() {
+                    return Err(format!("the ok-crate does not build with macros + likelysubtags and no error is located in it: {} | {}", co.stray.join(" | "), co.stderr_tail));
+                }
+            } else {
+                let exe = target.join("debug").join("c16okl");
+                let run = Command::new(&exe).output().map_err(|e| format!("cannot run {}: {e}", exe.display()))?;
+                for l in String::from_utf8_lossy(&run.stdout).lines() {
+                    let mut it = l.splitn(4, ' ');
+                    if it.next() != Some("R") {
+                        continue;
+                    }
+                    let Some(i) = it.next().and_then(|x| x.parse::<usize>().ok()) else { continue };
+                    let kind = it.next().unwrap_or("");
+                    let rest = it.next().unwrap_or("").to_string();
+                    if i < out.len() && kind != "OK" && matches!(out[i], Some(Outcome::Equal)) {
+                        out[i] = Some(if kind == "DIFF" { Outcome::Differs(format!("[features macros + likelysubtags] {rest}")) } else { Outcome::Panics(format!("[features macros + likelysubtags] {rest}")) });
+                    }
+                }
+            }
         }
     }
     // ---- bad-crate
@@ -535,6 +574,14 @@ const FIXED_GOOD: &[(&str, &str)] = &[
     ("region", "001"),
     ("variant", "1ABC"),
     ("variant", "VALENCIA"),
+    // codes and words with a meaning elsewhere (withdrawn ISO 639 codes, macrolanguages, registered
+    // variants, real-world keywords): an alias table or a feature-gated rewrite reacts to these only
+    ("lang", "iw"), ("lang", "in"), ("lang", "ji"), ("lang", "jw"), ("lang", "mo"), ("lang", "tl"), ("lang", "sh"), ("lang", "IW"),
+    ("langid", "iw-IL"), ("langid", "in_ID"), ("langid", "ji-Hebr-UA"), ("langid", "sh-Latn-RS"), ("langid", "tl-PH"), ("langid", "zh-cmn"), ("langid", "no-NO-nynorsk"),
+    ("langid", "ca-ES-valencia"), ("langid", "sl-rozaj-biske-1994"), ("langid", "en-US-posix"), ("langid", "ja-Latn-hepburn-heploc"), ("langid", "und-ZZ"), ("langid", "und-Zzzz-001"),
+    ("locale", "iw-IL-u-ca-hebrew"), ("locale", "he-t-iw-m0-ungegn"), ("locale", "en-US-u-va-posix"), ("locale", "th-TH-u-nu-thai-ca-buddhist"), ("locale", "ja-JP-u-ca-japanese-x-lvariant-jp"),
+    ("locale", "und-u-rg-uszzzz-sd-usca"), ("locale", "hi-t-en-h0-hybrid"), ("locale", "in-u-co-trad"), ("locale", "mo-MD-t-ro"),
+    ("region", "ZZ"), ("region", "UK"), ("region", "419"), ("script", "Zzzz"), ("script", "Qaaa"), ("variant", "posix"), ("variant", "1994"),
 ];
 
 const FIXED_BAD: &[(&str, &str)] = &[
